@@ -951,9 +951,21 @@ rt_prop("C12", ["malformed", "bridge"],
         "request never panics in the model (outstanding_never_panics); the wire decoders read a bounded prefix (decode_bounded). "
         "Panics / hangs of the real code are bounded empirically: every case runs under catch_unwind; malformed bytes (truncations, "
         "extensions, bit flips, random, empty, JSON fragments) are injected at every position of generated histories.")
+def _add_c09_codec_stream():
+    def gen(tier, seed):
+        return [["gen-fixed"]] + ([] if tier == "quick" else [["gen", seed + 11, 20000]])
+    PROPS["C09"]["streams"].append(Stream("codec", "codec", "codec", gen, nontrivial=codec_nontrivial, shape=codec_shape))
+    PROPS["C09"]["rule"] += ("; codec stream (fixed cases of the codec engine): schema-valid events of 1.5 MiB and 5 MiB and one value per "
+                             "protocol variant offered to the REAL bincode Bridge (Bridge::process_event / handle_response): the bridge must "
+                             "accept what the typed core's decoder accepts, whatever the size (key *-large-valid-message-not-accepted)")
+
+
+_add_c09_codec_stream()
+
+
 def _add_c12_codec_stream():
     def gen(tier, seed):
-        return [["gen", seed + 7, 8000 if tier == "quick" else 60000]]
+        return [["gen-fixed"], ["gen", seed + 7, 8000 if tier == "quick" else 60000]]
     PROPS["C12"]["streams"].append(Stream("codec", "codec", "codec", gen, nontrivial=codec_nontrivial, shape=codec_shape))
     PROPS["C12"]["rule"] += ("; codec stream: schema-derived encodings of the events and HTTP results of a typed app and mutations of "
                              "them (truncated, extended, bit flips, 8-byte windows overwritten with boundary lengths up to 2^63 and "
@@ -1172,8 +1184,12 @@ PROPS["C11"] = {
         Stream("eq", "det", "det", det_gen("eq", 6000, 200000), nontrivial=det_nontrivial, shape=det_shape, shrink=det_shrinks),
         Stream("tid", "det", "det", det_gen("tid", 1500, 60000), nontrivial=det_nontrivial, shape=det_shape, shrink=det_shrinks),
         Stream("rt", "det", "det", det_gen("rt", 2000, 60000), nontrivial=det_nontrivial, shape=det_shape, shrink=det_shrinks),
+        # exact ORDER of effects and events against the reference semantics (engine rt): several tasks awaiting clones of one
+        # JoinHandle, registered in an order that differs from their creation order
+        Stream("mjoin", "rt", "rt-C11", lambda tier, seed: [["gen", seed, 3000 if tier == "quick" else 120000, "mjoin"]],
+               nontrivial=rt_nontrivial, shape=rt_shape, shrink=sexp_shrinks),
     ],
-    "rule": "every case is answered from 6 independent replays: 4 in the harness process (each builds its requests / responses / "
+    "rule": "mjoin stream (engine rt, compared with M.Rt line by line and judged by the clause effect-order-not-a-function-of-the-history / event-order-...): a task spawns a worker and 2..6 waiters that each await 0..2 requests of their own and then a clone of the worker's JoinHandle; the waiters' requests are resolved in a random order (so the waiters register with the handle in an order unrelated to creation order and with re-allocated wakers), then the worker ends (resolve, or drop = eviction); the waiters' follow-up effects and events must come out in exactly the order the reference semantics computes from the history (registration order). every case is answered from 6 independent replays: 4 in the harness process (each builds its requests / responses / "
             "cores afresh, so every http-types header map has a fresh RandomState and the timer counter has moved on) and one in "
             "each of 2 fresh `det worker` processes (fresh hash seeds, counter back at 1). Stream hdr: (API ∈ {capability, command}) "
             "× request with 0-6 header() calls (names from a pool with mixed-case duplicates, random tokens, 0/1/2/3 values per call) "
